@@ -11,9 +11,11 @@ from .c01 import rule_frames
 
 
 def rule_ball_last(eng, rep, rule="C13-1.trust-region-ball-is-the-last-set-handed-to-dykstra"):
+    """The list handed to dykstra is analysed in the function that builds it: the step routine itself, or a helper it calls with its own
+    (projections, centre, radius) -- the helper's parameters are then mapped back to the routine's through the call binding."""
+    from ..resolve import bind_call
     for fid in ("trust_region.ctrsbox_sfista", "trust_region.ctrsbox_pgd", "trust_region.ctrsbox_linear"):
         fi = eng.fn(fid)
-        cfg = eng.cfg(fi)
         params = fi.posparams
         centre = params[0]
         if "projections" not in params:
@@ -21,15 +23,53 @@ def rule_ball_last(eng, rep, rule="C13-1.trust-region-ball-is-the-last-set-hande
             continue
         radius = params[params.index("projections") + 1]
         site = eng.where(fi)
-        # dykstra calls in this routine or its nested functions
-        dcalls = []
-        for sub in [fi] + fi.children:
-            for ci in eng.calls_in(sub):
-                if any(t.fid == "util.dykstra" for t in ci.targets):
-                    dcalls.append((sub, ci))
-        if not dcalls:
-            rep.bad(rule, site, "%s|no-dykstra" % fid, "routine never projects")
+
+        def dykstra_calls(f):
+            out = []
+            for sub in [f] + f.children:
+                for ci in eng.calls_in(sub):
+                    if any(t.fid == "util.dykstra" for t in ci.targets):
+                        out.append((sub, ci))
+            return out
+
+        builders = []      # (builder function, name of the projections list / centre / radius inside it, via text)
+        rejected = []
+        if dykstra_calls(fi):
+            builders.append((fi, "projections", centre, radius, ""))
+        else:
+            for sub in [fi] + fi.children:
+                for ci in eng.calls_in(sub):
+                    for t in ci.targets:
+                        if t.fid == fid or not dykstra_calls(t):
+                            continue
+                        b = bind_call(ci.node, t, False)
+                        inv = {}
+                        for pn, e in b.params.items():
+                            if not isinstance(e, tuple):
+                                inv.setdefault(ekey(e), pn)
+                        if b.errors or not all(k in inv for k in ("projections", centre, radius)):
+                            rejected.append((sub, ci, t))       # e.g. the call of the closure the helper returned
+                            continue
+                        builders.append((t, inv["projections"], inv[centre], inv[radius], " (built by %s, called with projections=%s, centre=%s, radius=%s)" % (t.qualname, "projections", centre, radius)))
+        if not builders:
+            for (sub, ci, t) in rejected:
+                rep.bad(rule, eng.where(sub, ci.node), "%s|helper-binding|%s" % (fid, t.fid),
+                        "the projecting helper %s is not called with this routine's (projections, %s, %s)" % (t.qualname, centre, radius))
+            if not rejected:
+                rep.bad(rule, site, "%s|no-dykstra" % fid, "routine never projects")
             continue
+        for (B, pname, cname, rname, via) in builders:
+            _check_builder(eng, rep, rule, fid, B, pname, cname, rname, via)
+
+
+def _check_builder(eng, rep, rule, fid, B, pname, centre, radius, via):
+    cfg = eng.cfg(B)
+    dcalls = []
+    for sub in [B] + B.children:
+        for ci in eng.calls_in(sub):
+            if any(t.fid == "util.dykstra" for t in ci.targets):
+                dcalls.append((sub, ci))
+    if True:
         for (sub, ci) in dcalls:
             lst = ci.node.args[0] if ci.node.args else None
             if not isinstance(lst, ast.Name):
@@ -49,7 +89,7 @@ def rule_ball_last(eng, rep, rule="C13-1.trust-region-ball-is-the-last-set-hande
                     muts.append(("aug", n, st))
             kinds = [m[0] for m in muts]
             ok_shape = kinds == ["assign", "append"]
-            fresh = ok_shape and isinstance(muts[0][2].value, ast.Call) and ekey(muts[0][2].value.func) == "list" and ekey(muts[0][2].value.args[0]) == "projections"
+            fresh = ok_shape and isinstance(muts[0][2].value, ast.Call) and ekey(muts[0][2].value.func) == "list" and ekey(muts[0][2].value.args[0]) == pname
             ball = None
             if ok_shape:
                 appended = muts[1][2].value.args[0]
@@ -60,31 +100,34 @@ def rule_ball_last(eng, rep, rule="C13-1.trust-region-ball-is-the-last-set-hande
                     defs = cfg.defs_reaching(appended, appended.id)
                     if len(defs) == 1 and isinstance(cfg.ast_of(defs[0]), ast.Assign) and isinstance(cfg.ast_of(defs[0]).value, ast.Lambda):
                         lam = cfg.ast_of(defs[0]).value
+                    elif len(defs) == 1 and isinstance(cfg.ast_of(defs[0]), ast.FunctionDef):
+                        fdef = cfg.ast_of(defs[0])
+                        body = [x for x in fdef.body if not (isinstance(x, ast.Expr) and isinstance(x.value, ast.Constant))]
+                        if len(body) == 1 and isinstance(body[0], ast.Return) and len(fdef.args.args) == 1:
+                            lam = ast.Lambda(args=fdef.args, body=body[0].value)       # `def trproj(w): return pball(w, c, r)` is the same thing
                 if lam is not None and isinstance(lam.body, ast.Call) and any(t.fid == "util.pball" for t in eng.res.calls[id(lam.body)].targets):
                     ball = lam.body
             s2 = eng.where(sub, ci.node)
             if not ok_shape or not fresh:
                 rep.bad(rule, s2, "%s|projector-list-shape|%s" % (fid, "+".join(kinds)),
-                        "the list handed to dykstra must be built as `%s = list(projections)` followed by exactly one append of the trust-region ball (found: %s)" % (lst.id, kinds))
+                        "the list handed to dykstra must be built as `%s = list(%s)` followed by exactly one append of the trust-region ball (found: %s)%s" % (lst.id, pname, kinds, via))
                 continue
             if ball is None or len(ball.args) != 3:
-                rep.bad(rule, s2, "%s|last-projector-not-a-ball" % fid, "the projector appended last is not `lambda w: pball(w, centre, radius)`")
+                rep.bad(rule, s2, "%s|last-projector-not-a-ball" % fid, "the projector appended last is not `lambda w: pball(w, centre, radius)`%s" % via)
                 continue
             c_ok = ekey(ball.args[1]) == centre
             r_ok = ekey(ball.args[2]) == radius
-            # the def of the nested proj must come after the append (it captures the final list) -- closures read at call time, so only the call order matters:
-            # dykstra must not be reachable before the append in the routine's own CFG
             if c_ok and r_ok:
-                rep.ok(rule, s2, "dykstra runs over list(projections) + [pball(., %s, %s)]: the ball of the routine's own centre and radius is projected last; the caller's list is not mutated" % (centre, radius))
+                rep.ok(rule, s2, "[%s] dykstra runs over list(%s) + [pball(., %s, %s)]: the ball of the routine's own centre and radius is projected last; the caller's list is not mutated%s" % (fid.split(".")[-1], pname, centre, radius, via))
             else:
                 rep.bad(rule, s2, "%s|ball-centre-or-radius|%s,%s" % (fid, ekey(ball.args[1]), ekey(ball.args[2])),
-                        "the trust-region ball is pball(., %s, %s) but the routine's centre/radius are (%s, %s)" % (ekey(ball.args[1]), ekey(ball.args[2]), centre, radius))
+                        "the trust-region ball is pball(., %s, %s) but the routine's centre/radius are (%s, %s)%s" % (ekey(ball.args[1]), ekey(ball.args[2]), centre, radius, via))
             # the projected point is centre + step
             pt = ci.node.args[1] if len(ci.node.args) > 1 else None
             if pt is not None and isinstance(pt, ast.BinOp) and isinstance(pt.op, ast.Add) and centre in (ekey(pt.left), ekey(pt.right)):
-                rep.ok(rule, s2, "the projected point is `%s` and the routine returns the step relative to %s" % (short(pt), centre), nontrivial=False)
+                rep.ok(rule, s2, "[%s] the projected point is `%s` and the routine returns the step relative to %s" % (fid.split(".")[-1], short(pt), centre), nontrivial=False)
             else:
-                rep.bad(rule, s2, "%s|projected-point|%s" % (fid, short(pt, 30)), "the point handed to dykstra is `%s`, not centre + step" % short(pt))
+                rep.bad(rule, s2, "%s|projected-point|%s" % (fid, short(pt, 30)), "the point handed to dykstra is `%s`, not centre + step%s" % (short(pt), via))
 
 
 def rule_zero_step(eng, rep, rule="C13-2.zero-step-replaces-a-model-increasing-regularised-step"):
